@@ -55,10 +55,49 @@ def job(j):
     return acc
 
 
+def tcp_history_job(job):
+    """Several requests on ONE Modbus/TCP protocol object while the peer answers, closes or resets the connection between
+    and during them: every transmission must carry a non-zero transaction id different from the previous transmission's."""
+    keep, variant = job
+    acc = Acc()
+    patterns = {
+        0: [[["answer", 1]], [["combo", [["answer", 1], ["reset", 3, "ECONNRESET"]]]], [["answer", 1]], [["combo", [["answer", 1], ["reset", 2, "ECONNRESET"]]]], [["answer", 1]], [["answer", 1]]],
+        1: [[["reset", 1, "ECONNRESET"], ["answer", 1]], [["answer", 1]], [["reset", 1, "ECONNRESET"], ["reset", 1, "ECONNRESET"], ["answer", 1]], [["answer", 1]]],
+        2: [[["combo", [["answer", 1], ["eof", 2]]]], [["answer", 1]], [["eof", 1], ["answer", 1]], [["combo", [["answer", 1], ["reset", 2, "EPIPE"]]]], [["answer", 2]]],
+        3: [[["senderr", "EPIPE"], ["answer", 1]], [["answer", 1]], [["drop"], ["answer", 1]], [["combo", [["answer", 1], ["reset", 1, "ECONNRESET"]]]], [["drop"], ["reset", 1, "ECONNRESET"], ["answer", 1]]],
+    }[variant]
+    for gap in ("idle", 0, 4):
+        steps = []
+        for script in patterns:
+            steps.append({"op": "request", "script": script, "command": ("read", 35100, 2)})
+            steps.append({"op": "idle"} if gap == "idle" else {"op": "sleep", "ticks": gap})
+        case = {"e2e": True, "tcp_history": True, "keep": keep, "variant": variant, "gap": gap, "transport": "tcp"}
+        acc.case()
+        acc.nontrivial("tcp-history", keep, variant, gap)
+        results, world, errors, protocol = netcase.run_sequence({"transport": "tcp", "keep": keep, "T": 1.0, "R": 3, "latency": 0, "steps": steps})
+        prev = None
+        for i, (t, tid, data, failed) in enumerate(world.tx):
+            try:
+                tx, op = rw.parse_tcp_request(data)
+            except rw.ParseError as ex:
+                acc.fail("C03|e2e|tcp|undecodable", "%s: %s" % (data.hex(), ex), case)
+                break
+            if tx == 0 or tx == prev:
+                acc.fail("C03|e2e|tcp|tx-id", "transmission %d of the history carries transaction id %d, previous transmission %r" % (i, tx, prev), case)
+                break
+            prev = tx
+    return acc
+
+
 def run(ctx):
+    ctx.shard(tcp_history_job, [(k, v) for k in (False, True) for v in range(4)],
+              "Modbus/TCP transaction ids over request histories with peer resets / closes between and during requests")
     ctx.shard(job, [(t, k) for t in ("udp", "tcp", "aa55") for k in (False, True)],
               "end-to-end: transmissions and retransmissions parsed at the scripted peer")
 
 
 def replay(ctx, case):
+    if case.get("tcp_history"):
+        ctx.acc.merge(tcp_history_job((case["keep"], case["variant"])))
+        return
     ctx.acc.merge(job((case["transport"], case["keep"])))
